@@ -52,6 +52,22 @@ AppliesOf(c, k) ==
                        ELSE <<>>) \o Pick(j + 1)
   IN Pick(1)
 
+\* hook H3b: the state after every gate application.  The recorded events of subcircuit k are folded through the
+\* action ApplyGate of the emulator machine: event j must be the j-th gate with a unitary and must leave exactly the
+\* state the action leaves.  Returns 0 if every step conforms, else the number of the first step that does not.
+AppliedOf(c, k) ==
+  LET RECURSIVE Pick(_)
+      Pick(j) == IF j > Len(c.obs.applied) THEN <<>>
+                 ELSE (IF c.obs.applied[j].sub = k THEN <<c.obs.applied[j]>> ELSE <<>>) \o Pick(j + 1)
+  IN Pick(1)
+RECURSIVE StepFrom(_, _, _, _, _, _)
+StepFrom(st, ugs, evs, j, n, prog) ==
+  IF j > Len(ugs) THEN 0
+  ELSE LET st2 == ApplyGate(st, ugs[j], n, prog) IN
+       IF evs[j].gate # ugs[j].v \/ ~evs[j].exact \/ evs[j].k # st2.k \/ evs[j].vec # [x \in 1..(2 ^ n) |-> st2.vec[x - 1]]
+       THEN j ELSE StepFrom(st2, ugs, evs, j + 1, n, prog)
+UnitaryOnly(c, gs) == SelectSeq(gs, LAMBDA g : GateCls(c.inp, g.v) \notin {"idle", "busy"} /\ Mat(g.v, CArgs(g)).has)
+
 Count(s, v) == Cardinality({ j \in DOMAIN s : s[j] = v })
 ReadoutsOfSub(c, k) ==
   LET RECURSIVE Pick(_)
@@ -93,10 +109,18 @@ Clauses2(c) ==
   \cup (IF c.site \in {"run", "run_ovr", "run_shared"} /\ valid /\ shouldRun /\ ok /\ Len(o.subs) = Len(disc.pairs)
         THEN UNION { LET ex == ExpectedState(c, k) IN
                      IF ~ex.visited THEN {}
+                     \* every gate with a unitary is applied, with its resolved qubits and arguments (also a rotation by
+                     \* 1e-6: an argument of arbitrary real value is outside the exact family, so the state of such a
+                     \* subcircuit is not recomputed, but the gate must still be applied - not skipped as "nearly identity")
+                     ELSE F("applied_gates", o.hooked /\ AppliesOf(c, k - 1) # UnitaryGates(c, ex.gates))
+                     \* one "applied" event per gate with a unitary, AFTER the state change
+                     \cup F("applied_count", o.hooked /\ Len(AppliedOf(c, k - 1)) # Len(UnitaryOnly(c, ex.gates)))
+                     \cup F("step_vectors", o.hooked /\ ~HasRealArg(ex.gates) /\ Len(AppliedOf(c, k - 1)) = Len(UnitaryOnly(c, ex.gates)) /\
+                              StepFrom(Init0(NQ(c)), UnitaryOnly(c, ex.gates), AppliedOf(c, k - 1), 1, NQ(c), c.inp) # 0)
+                     \cup IF HasRealArg(ex.gates) THEN {}
                      ELSE F("exact_repr", ~o.subs[k].exact)
                           \cup F("vector", o.subs[k].exact /\
                                    (o.subs[k].k # ex.st.k \/ o.subs[k].vec # [x \in 1..(2 ^ NQ(c)) |-> ex.st.vec[x - 1]]))
-                          \cup F("applied_gates", o.hooked /\ AppliesOf(c, k - 1) # UnitaryGates(c, ex.gates))
                           \cup F("nonzero_prob", o.subs[k].exact /\ \E j \in DOMAIN o.subs[k].readouts :
                                    LET a == o.subs[k].vec[o.subs[k].readouts[j] + 1] IN a[1] = 0 /\ a[2] = 0)
                           \cup F("probabilities", o.subs[k].exact /\ ~o.subs[k].probs_match)
